@@ -150,3 +150,99 @@ func C15WatchConnState(endpoints []string, cli EtcdClient) bool {
 	go c.watchConnState(cli)
 	return true
 }
+
+// C15ScriptConn is a scripted etcdConn with the semantics of a gRPC connection:
+// WaitForStateChange returns at once if the state differs from the source state
+// and blocks otherwise. A one-shot "flip" makes the state change right after
+// GetState has returned a given state (a transition that completes between two
+// consecutive calls of the watcher).
+type C15ScriptConn struct {
+	mu      sync.Mutex
+	state   connectivity.State
+	ch      chan struct{}
+	flip    map[connectivity.State]connectivity.State
+	reads   map[connectivity.State]int
+	blocked int // waiters parked in WaitForStateChange whose source state is the current state
+}
+
+func C15NewScriptConn(s connectivity.State) *C15ScriptConn {
+	return &C15ScriptConn{state: s, ch: make(chan struct{}), flip: map[connectivity.State]connectivity.State{}, reads: map[connectivity.State]int{}}
+}
+
+func (c *C15ScriptConn) setLocked(s connectivity.State) {
+	if s != c.state {
+		c.state = s
+		close(c.ch)
+		c.ch = make(chan struct{})
+	}
+}
+
+// Set changes the connection state.
+func (c *C15ScriptConn) Set(s connectivity.State) {
+	c.mu.Lock()
+	c.setLocked(s)
+	c.mu.Unlock()
+}
+
+// FlipAfterRead: the next GetState that returns from is followed at once by a
+// change to to.
+func (c *C15ScriptConn) FlipAfterRead(from, to connectivity.State) {
+	c.mu.Lock()
+	c.flip[from] = to
+	c.mu.Unlock()
+}
+
+func (c *C15ScriptConn) GetState() connectivity.State {
+	c.mu.Lock()
+	defer c.mu.Unlock()
+	s := c.state
+	c.reads[s]++
+	if to, ok := c.flip[s]; ok {
+		delete(c.flip, s)
+		c.setLocked(to)
+	}
+	return s
+}
+
+func (c *C15ScriptConn) WaitForStateChange(ctx context.Context, source connectivity.State) bool {
+	c.mu.Lock()
+	if c.state != source {
+		c.mu.Unlock()
+		return true
+	}
+	ch := c.ch
+	c.blocked++
+	c.mu.Unlock()
+	defer func() {
+		c.mu.Lock()
+		c.blocked--
+		c.mu.Unlock()
+	}()
+	select {
+	case <-ch:
+		return true
+	case <-ctx.Done():
+		return false
+	}
+}
+
+// Settled reports the current state, whether a waiter is parked waiting for that
+// state to change, and how often GetState returned each state.
+func (c *C15ScriptConn) Settled() (connectivity.State, bool, map[connectivity.State]int) {
+	c.mu.Lock()
+	defer c.mu.Unlock()
+	r := map[connectivity.State]int{}
+	for k, v := range c.reads {
+		r[k] = v
+	}
+	return c.state, c.blocked > 0, r
+}
+
+// C15WatchScripted runs a real stateWatcher's watch loop on conn, wired as
+// cluster.watchConnState does (one listener; onFire is expected to start the
+// reload).
+func C15WatchScripted(conn *C15ScriptConn, onFire func()) {
+	w := newStateWatcher()
+	w.addListener(onFire)
+	go w.watch(conn)
+}
